@@ -34,7 +34,7 @@ ASSUMPTIONS = [
   "line numbers: displayAlign is asserted only for n >= 0 without an explicit line alignment (before); with a line alignment or n < 0 only validity and the ordering are asserted (snap-to-lines positioning ignores the line alignment; before and after anchoring are both defensible for n < 0). Ordering of line numbers assumes more than 10 rows/columns: anchored edges of |n| <= 10 are strictly ordered",
   "size / position given explicitly: inline extent = min(size, WebVTT maximum size) and the edge selected by the (computed) position alignment sits at position (auto position 0/50/100 by align); nothing is asserted on the inline axis when neither is given",
   "voice annotations, class names other than the eight colours and identifiers have no counterpart in the model and are only required not to disturb the text",
-  "not generated (legal but left out): payload lines consisting of white space only, timestamps inside ruby, region: cue settings, the header line followed by further header lines, missing space around -->",
+  "not generated (legal but left out): timestamps inside ruby, region: cue settings, the header line followed by further header lines, missing space around -->",
   "span ends are not asserted (a timestamp span needs no end); the P elements are taken in document order whatever div structure holds them",
   "ruby: the n-th <rt> annotates the n-th base; a base without <rt> is generated only in last position",
   "writer_roundtrip: what was written is what the strict parser vt/cueparse.py reads from the writer's string; lines without visible characters and line-edge spaces are ignored; background rgba(0,0,0,204) / transparent count as no background",
@@ -553,6 +553,7 @@ NUMBERS = G.profile(geometry="numbers", ts="none", ruby="none", depth=1, max_cue
 FRACTIONAL = G.profile(geometry="fractional", ts="none", ruby="none", depth=1)
 EMPTY_PAYLOAD = G.profile(empty_payload=True, geometry="none", ts="none", ruby="none", depth=1)
 ODD_IDS = G.profile(odd_ids=True, geometry="none", ts="none", ruby="none", depth=1)
+WS_LINES = G.profile(ws_lines=True, geometry="none", ts="none", ruby="none", depth=1)
 
 PARTS = {
   "main": Part("main", check, strategy=cases(MAIN), n=(1600, 80000), shrinker=SHRINK,
@@ -574,6 +575,7 @@ PARTS = {
                        required_labels=("line:zero", "line:negative", "line:positive")),
   "fractional": Part("fractional", check, strategy=cases(FRACTIONAL), n=(80, 8000), shrinker=SHRINK),
   "empty_payload": Part("empty_payload", check, strategy=cases(EMPTY_PAYLOAD), n=(80, 8000), shrinker=SHRINK, required_labels=("cue:empty-payload",)),
+  "ws_lines": Part("ws_lines", check, strategy=cases(WS_LINES), n=(160, 8000), shrinker=SHRINK, required_labels=("cue:white-space-only-line",)),
   "odd_ids": Part("odd_ids", check, strategy=cases(ODD_IDS), n=(80, 8000), shrinker=SHRINK, required_labels=("cue:identifier-like-block-keyword",)),
 }
 
